@@ -30,6 +30,7 @@ def dispatch (st : DState) (line : String) : DState × String :=
     | _, _ => (st, "bad-grammar")
   | "lextab" :: args => (st, withArt st args fun a _ => some (showLexTab a))
   | "lrtab" :: args => (st, withArt st args fun a _ => some (showLRTab a))
+  | "lrtabzip" :: args => (st, withArt st args fun a _ => some (showLRTabZip a))
   | "terminals" :: args => (st, withArt st args fun a _ => some (opTerminals a))
   | "scan" :: args => (st, withArt st args opScan)
   | "c05oracle" :: args => (st, withArt st args fun a _ => some (opC05 a))
